@@ -42,6 +42,19 @@ impl<'a> Minimiser<'a> {
                 Case::Corrupt(c) => Case::Corrupt(self.min_corrupt(c)),
                 Case::Payload(p) => Case::Payload(self.min_payload(p)),
                 Case::Multi(m) => Case::Multi(self.min_multi(m)),
+                Case::FromIter(mut f) => {
+                    let mut i = 0;
+                    while i < f.items.len() {
+                        let mut c = f.clone();
+                        c.items.remove(i);
+                        if self.fails(&Case::FromIter(c.clone())) {
+                            f = c;
+                        } else {
+                            i += 1;
+                        }
+                    }
+                    Case::FromIter(f)
+                }
                 other => other,
             };
             if cur == before || self.execs >= self.budget {
